@@ -257,6 +257,13 @@ fn main() {
         std::process::exit(2);
     }
     match argv[1].as_str() {
+        "variants" => {
+            let scn = find(&argv[2]);
+            let tier = arg(&argv, "--tier").unwrap_or_else(|| "quick".into());
+            for (i, p) in scn.variants(&tier).iter().enumerate() {
+                println!("{} bound={} {}", i, scn.bound(&tier, p), p);
+            }
+        }
         "list" => {
             for s in all_scenarios() {
                 println!("{} ({}) quick variants {} : {}", s.name(), s.property(), s.variants("quick").len(), s.describe());
